@@ -199,7 +199,7 @@ fn run_check(id: &str, thorough: bool) -> i32 {
     results.sort_by(|a, b| a.name.cmp(&b.name));
 
     // machinery errors are never verdicts
-    let errors: Vec<String> = results.iter().filter(|r| r.name != "E/conformance").filter_map(|r| r.error.as_ref().map(|e| format!("{}: {}", r.name, e))).collect();
+    let errors: Vec<String> = results.iter().filter(|r| !r.name.starts_with("E/conformance")).filter_map(|r| r.error.as_ref().map(|e| format!("{}: {}", r.name, e))).collect();
     if !errors.is_empty() {
         for e in &errors {
             eprintln!("MACHINERY ERROR {}", e);
@@ -209,7 +209,7 @@ fn run_check(id: &str, thorough: bool) -> i32 {
     // The binding check (the real binary did not behave as the in-process run on some history) is a machinery
     // error when the exploration itself is silent: then nothing vouches for what it explored. When the exploration
     // has a violation to show, that violation is replayable on the real code in-process and stands on its own.
-    let conformance_error: Option<String> = results.iter().filter(|r| r.name == "E/conformance").find_map(|r| r.error.clone());
+    let conformance_error: Option<String> = results.iter().filter(|r| r.name.starts_with("E/conformance")).find_map(|r| r.error.clone());
 
     // merge findings for this property by signature (cheapest first)
     let mut merged: BTreeMap<String, (&FoundAny, String)> = BTreeMap::new();
